@@ -259,21 +259,27 @@ class SendEventResponse(StreamingResponse[ServerSentEvent]):
                     g.close()  # type: ignore
 
         push_future = self.thread_pool.submit(push)
+        got_sentinel = False
 
         try:
             while not (push_future.done() and q.empty()):
                 try:
                     event = q.get(timeout=self.ping_interval)
                     if event is None:
+                        got_sentinel = True
                         break
                     yield build_bytes_from_sse(event, self.charset)
                 except queue.Empty:
                     yield b": ping\n\n"
         finally:
             should_stop = True
-            while not q.empty():
-                q.get_nowait()  # pragma: no cover
             if not push_future.cancel():
+                # The push thread always ends by putting None. Keep draining
+                # until it arrives: draining only once lets the thread fill the
+                # queue again and then block forever on its final put(None)
+                # while we wait for it here.
+                while not got_sentinel:
+                    got_sentinel = q.get() is None
                 exc = push_future.exception()
                 if exc is not None:
                     raise exc
